@@ -38,7 +38,7 @@ class Trip(db.Entity):
     name = orm.Required(str)
     notes = orm.Optional(str, lazy=True)
     bookings = orm.Set(Booking)
-    receipts = orm.Set(Receipt)
+    receipts = orm.Set(Receipt, lazy=True)       # a LAZY collection: chosen by with_collections, not by with_lazy
     plains = orm.Set('Plain')
     favourite_seats = orm.Set(Seat, reverse='trips_seen')
     best = orm.Optional('Plain', reverse='best_of')
